@@ -4,6 +4,7 @@ import MontePyVerif.Gen.Grammar
 import MontePyVerif.Gen.Registry
 import MontePyVerif.Model.Dispatch
 import MontePyVerif.Lemmas.Cfg
+import MontePyVerif.Lemmas.LexNum
 /-! # C12 — every input in the documented core grammar is accepted
 
 What is PROVED here (for all sentences of the families, no bound on their size):
@@ -166,6 +167,79 @@ def exampleInterpZero : DataCard where
 example : exampleInterpZero.WF = true ∧ exampleInterpZero.interpEndNonzero = false := by decide
 example : Der Grammar.dataParser.productions "data_input" exampleInterpZero.classes :=
   C12_cfg_montepy.2.2.1 exampleInterpZero (by decide) (by decide)
+
+/-! ### the families added in round 4: tally, FS, SDEF, SI/SP/SB/DS with an option letter -/
+
+/-- for ANY production list containing the required productions: every well-formed F card (bins, groups with
+    gaps, total), FS card, SDEF card (numbers, `dN`, particle values; possibly no parameter) and lettered
+    SI/SP/SB/DS card derives from the start symbol of its parser -/
+def C12_cfg_extended_statement : Prop :=
+  (∀ P : Prods, reqTally ⊆ P → ∀ lead c g0 items total, (XCard.mk lead c g0 (.tally items total)).WF = true →
+      Der P "tally" (XCard.mk lead c g0 (.tally items total)).classes) ∧
+  (∀ P : Prods, reqTallySeg ⊆ P → ∀ lead c g0 es total, (XCard.mk lead c g0 (.segments es total)).WF = true →
+      Der P "tally" (XCard.mk lead c g0 (.segments es total)).classes) ∧
+  (∀ P : Prods, reqSdef ⊆ P → ∀ lead c g0 ps, (XCard.mk lead c g0 (.sdef ps)).WF = true →
+      Der P "param_data_input" (XCard.mk lead c g0 (.sdef ps)).classes) ∧
+  (∀ P : Prods, reqLettered ⊆ P → ∀ lead c g0 l g es, (XCard.mk lead c g0 (.lettered l g es)).WF = true →
+      Der P "data_input" (XCard.mk lead c g0 (.lettered l g es)).classes)
+
+theorem C12_cfg_extended : C12_cfg_extended_statement :=
+  ⟨fun _ h lead c g0 items total hw => tally_der h lead c g0 items total hw,
+   fun _ h lead c g0 es total hw => segments_der h lead c g0 es total hw,
+   fun _ h lead c g0 ps hw => sdef_der h lead c g0 ps hw,
+   fun _ h lead c g0 l g es hw => lettered_der h lead c g0 l g es hw⟩
+
+theorem C12_required_productions_extended :
+    reqTally ⊆ Grammar.tallyParser.productions ∧ reqTallySeg ⊆ Grammar.tallySegmentParser.productions ∧
+    reqSdef ⊆ Grammar.paramOnlyDataParser.productions ∧ reqLettered ⊆ Grammar.dataParser.productions ∧
+    Grammar.tallyParser.start = "tally" ∧ Grammar.tallySegmentParser.start = "tally" ∧
+    Grammar.paramOnlyDataParser.start = "param_data_input" := by
+  refine ⟨by decide, by decide, by decide, by decide, by decide, by decide, by decide⟩
+
+/-- instantiated with the extracted grammars -/
+theorem C12_cfg_extended_montepy :
+    (∀ lead c g0 items total, (XCard.mk lead c g0 (.tally items total)).WF = true →
+      Der Grammar.tallyParser.productions Grammar.tallyParser.start (XCard.mk lead c g0 (.tally items total)).classes) ∧
+    (∀ lead c g0 es total, (XCard.mk lead c g0 (.segments es total)).WF = true →
+      Der Grammar.tallySegmentParser.productions Grammar.tallySegmentParser.start
+        (XCard.mk lead c g0 (.segments es total)).classes) ∧
+    (∀ lead c g0 ps, (XCard.mk lead c g0 (.sdef ps)).WF = true →
+      Der Grammar.paramOnlyDataParser.productions Grammar.paramOnlyDataParser.start
+        (XCard.mk lead c g0 (.sdef ps)).classes) ∧
+    (∀ lead c g0 l g es, (XCard.mk lead c g0 (.lettered l g es)).WF = true →
+      Der Grammar.dataParser.productions Grammar.dataParser.start (XCard.mk lead c g0 (.lettered l g es)).classes) := by
+  obtain ⟨h1, h2, h3, h4, s1, s2, s3⟩ := C12_required_productions_extended
+  have s4 := C12_required_productions.2.2.2.2.2.2.2.1
+  rw [s1, s2, s3, s4]
+  exact ⟨fun lead c g0 items total hw => C12_cfg_extended.1 _ h1 lead c g0 items total hw,
+    fun lead c g0 es total hw => C12_cfg_extended.2.1 _ h2 lead c g0 es total hw,
+    fun lead c g0 ps hw => C12_cfg_extended.2.2.1 _ h3 lead c g0 ps hw,
+    fun lead c g0 l g es hw => C12_cfg_extended.2.2.2 _ h4 lead c g0 l g es hw⟩
+
+/-- `*f14:n,p 1 ( 2 3) (4) t` -/
+def exampleTally : XCard where
+  lead := []
+  classifier := { star := true, starCls := "PARTICLE_SPECIAL", name := "f", nameCls := "PARTICLE", number := some "14",
+                  particles := ["n", "p"] }
+  g0 := [.space]
+  body := .tally [.bins [(.real ⟨"1", false⟩, [.space])],
+                  .group [.space] [(.real ⟨"2", false⟩, [.space]), (.real ⟨"3", false⟩, [])] [.space],
+                  .group [] [(.real ⟨"4", false⟩, [])] [.space]] (some ("t", []))
+
+example : exampleTally.WF = true := by decide
+example : exampleTally.render = ["*f14:n,p", "1", "(", "2", "3", ")", "(", "4", ")", "t"] := by decide
+
+/-- `sdef erg=d1 pos 0 0 0 par=n` and the bare `sdef` -/
+def exampleSdef : XCard where
+  lead := []
+  classifier := { star := false, name := "sdef", nameCls := "TEXT", number := none, particles := [] }
+  g0 := [.space]
+  body := .sdef [⟨"erg", ⟨[], true, []⟩, .dist "d" "1" [.space]⟩,
+                 ⟨"pos", ⟨[.space], false, []⟩, .nums [(.real ⟨"0", true⟩, [.space]), (.real ⟨"0", true⟩, [.space]),
+                    (.real ⟨"0", true⟩, [.space])]⟩,
+                 ⟨"par", ⟨[], true, []⟩, .particle "n" []⟩]
+example : exampleSdef.WF = true := by decide
+example : ({ exampleSdef with g0 := [], body := .sdef [] } : XCard).WF = true := by decide
 
 /-! ## C12_dispatch -/
 
@@ -373,5 +447,168 @@ theorem C12_lexclass_particles_elsewhere :
 
 example : pinnedParticles.filter isKeywordLetter = ["u", "x", "y", "z"] := by decide
 example : particleLexerText false "u" = "KEYWORD" ∧ particleLexerText true "U" = "PARTICLE" := by decide
+
+/-! ## C12_lexnum — the regular-expression decision on numeric words (Model/LexNum.lean)
+
+The rules were modelled from these exact pattern strings; `C12_lexnum_patterns` pins them (and their order, the
+rules in front of them, the flags and the shortcut expressions) against what the translator extracted from every
+lexer class: a changed pattern makes this theorem false, the module stops building and the check searches. -/
+
+open MontePyVerif.LexNum in
+/-- the rules in front of the numeric ones: none can start at a sign, a digit or a point -/
+def pinnedLeadingRules : List (String × String) :=
+  [("COMPLEMENT", "\\#"), ("DOLLAR_COMMENT", "(\\$.*)"), ("COMMENT", "(C\\n)|(C\\s.*)"),
+   ("SOURCE_COMMENT", "(SC\\d+.*)"), ("TALLY_COMMENT", "(FC\\d+.*)"), ("SPACE", "(\\s+)")]
+
+/-- the rules that compete on a numeric word, in master-regex order (THERMAL_LAW starts with a letter) -/
+def pinnedNumericRules : List (String × String) :=
+  [("ZAID", "(\\d{4,6}\\.(\\d{2}(?!e[+\\-]?\\d)[a-z]|\\d{3}[a-z]{2}))"),
+   ("THERMAL_LAW", "[a-z][a-z\\d/-]+\\.\\d+[a-z]"),
+   ("NUMBER_WORD",
+    "([+\\-]?\\d+(?!e[+\\-]?\\d)[a-z]+)|([+\\-]?(\\d+\\.?\\d*|\\.\\d+)(e[+\\-]?\\d+|[+\\-]\\d+)?m(?![a-z]))"),
+   ("NUMBER", "([+\\-]?[0-9]+\\.?[0-9]*E?[+\\-]?[0-9]*)|([+\\-]?[0-9]*\\.?[0-9]+E?[+\\-]?[0-9]*)"),
+   ("TEXT", "([+\\-]?[0-9]*\\.?[0-9]*E?[+\\-]?[0-9]*[ijrml]+[a-z\\./]*)|([a-z]+[a-z\\./]*)")]
+
+/-- `_EXPRESSIONS`, from which `LexNum.parseShortcut` was written -/
+def pinnedShortcutExpressions : List (String × String) :=
+  [("INTERPOLATE", "^\\d*I$"), ("JUMP", "^\\d*J$"), ("LOG_INTERPOLATE", "^\\d*I?LOG$"),
+   ("MULTIPLY", "^[+\\-]?([0-9]+\\.?[0-9]*|\\.[0-9]+)E?[+\\-]?[0-9]*M$"), ("REPEAT", "^\\d*R$")]
+
+theorem C12_lexnum_patterns :
+    (∀ rules ∈ [Tokens.mCNPLexerRules, Tokens.particleLexerRules, Tokens.cellLexerRules, Tokens.dataLexerRules,
+        Tokens.surfaceLexerRules], rules.take 11 = pinnedLeadingRules ++ pinnedNumericRules) ∧
+    (∀ fl ∈ [Tokens.mCNPLexerReflags, Tokens.particleLexerReflags, Tokens.cellLexerReflags,
+        Tokens.dataLexerReflags, Tokens.surfaceLexerReflags], fl = 66) ∧   -- re.IGNORECASE | re.VERBOSE
+    Tokens.shortcutExpressions = pinnedShortcutExpressions := by
+  refine ⟨by decide, by decide, by decide⟩
+
+namespace LexBridge
+open MontePyVerif.LexNum
+
+/-- a decimal digit character -/
+def dchar (d : Fin 10) : Char := Char.ofNat (48 + d.val)
+
+theorem kind_dchar : ∀ d : Fin 10, kind (dchar d) = K.dig (d.val == 0) := by decide
+
+def dchars (ds : List (Fin 10)) : List Char := ds.map dchar
+def zflags (ds : List (Fin 10)) : List Bool := ds.map (fun d => d.val == 0)
+
+theorem kinds_dchars (ds : List (Fin 10)) : (dchars ds).map kind = digs (zflags ds) := by
+  induction ds with
+  | nil => rfl
+  | cons d ds ih => simp [dchars, zflags, kind_dchar, digs] at ih ⊢
+
+theorem zflags_cons (d : Fin 10) (ds : List (Fin 10)) : zflags (d :: ds) = (d.val == 0) :: zflags ds := rfl
+
+/-- G's `Real` rule on CHARACTERS: sign, digits, point, exponent with `e` or `E` or without a letter -/
+inductive MantC
+  | int (d : Fin 10) (ip : List (Fin 10))
+  | intDot (d : Fin 10) (ip fp : List (Fin 10))
+  | dotFrac (d : Fin 10) (fp : List (Fin 10))
+inductive ExpC
+  | none
+  | letter (upper : Bool) (sg : Option Bool) (d : Fin 10) (ds : List (Fin 10))
+  | bare (minus : Bool) (d : Fin 10) (ds : List (Fin 10))
+structure RealC where
+  sign : Option Bool
+  mant : MantC
+  exp : ExpC
+
+def signC : Option Bool → List Char
+  | none => [] | some true => ['+'] | some false => ['-']
+def MantC.chars : MantC → List Char
+  | .int d ip => dchars (d :: ip)
+  | .intDot d ip fp => dchars (d :: ip) ++ '.' :: dchars fp
+  | .dotFrac d fp => '.' :: dchars (d :: fp)
+def ExpC.chars : ExpC → List Char
+  | .none => []
+  | .letter up sg d ds => (if up then 'E' else 'e') :: (signC sg ++ dchars (d :: ds))
+  | .bare mn d ds => (if mn then '-' else '+') :: dchars (d :: ds)
+def RealC.chars (r : RealC) : List Char := signC r.sign ++ (r.mant.chars ++ r.exp.chars)
+
+def MantC.sp : MantC → MantSp
+  | .int d ip => .int (d.val == 0) (zflags ip)
+  | .intDot d ip fp => .intDot (d.val == 0) (zflags ip) (zflags fp)
+  | .dotFrac d fp => .dotFrac (d.val == 0) (zflags fp)
+def ExpC.sp : ExpC → ExpSp
+  | .none => .none
+  | .letter _ sg d ds => .letter sg (d.val == 0) (zflags ds)
+  | .bare mn d ds => .bare mn (d.val == 0) (zflags ds)
+def RealC.sp (r : RealC) : RealSp := ⟨r.sign, r.mant.sp, r.exp.sp⟩
+
+theorem kinds_signC (sg : Option Bool) : (signC sg).map kind = signK sg := by
+  cases sg with
+  | none => rfl
+  | some b => cases b <;> decide
+
+theorem kinds_real (r : RealC) : r.chars.map kind = r.sp.ks := by
+  obtain ⟨sg, mant, ex⟩ := r
+  have hdot : kind '.' = K.dot := by decide
+  have he : kind 'e' = K.e ∧ kind 'E' = K.e ∧ kind '+' = K.plus ∧ kind '-' = K.minus := by decide
+  have hm : mant.chars.map kind = mant.sp.ks := by
+    cases mant <;>
+      simp only [MantC.chars, MantC.sp, MantSp.ks, List.map_append, List.map_cons, kinds_dchars, hdot, zflags_cons]
+  have hx : ex.chars.map kind = ex.sp.ks := by
+    cases ex with
+    | none => rfl
+    | letter up sg' d ds =>
+      cases up <;>
+        simp only [ExpC.chars, ExpC.sp, ExpSp.ks, List.map_append, List.map_cons, kinds_signC, kinds_dchars, he,
+          zflags_cons, digs_cons, if_true, if_false, Bool.false_eq_true]
+    | bare mn d ds =>
+      cases mn <;>
+        simp only [ExpC.chars, ExpC.sp, ExpSp.ks, List.map_cons, kinds_dchars, he, zflags_cons, digs_cons,
+          if_true, if_false, Bool.false_eq_true]
+  simp [RealC.chars, RealC.sp, RealSp.ks, kinds_signC, hm, hx]
+
+end LexBridge
+
+open MontePyVerif.LexNum LexBridge in
+/-- **C12_lexnum_real** — every character string that spells G's `Real` rule (any digits, any length, `e` or `E`
+    or no letter, any signs) is ONE token of the numeric rules: NUMBER, or NULL when every significand digit is
+    `0`, taking the whole word, in every context (the five lexer classes share the pinned rules). -/
+theorem C12_lexnum_real (r : RealC) (nuc : Bool) :
+    classify nuc (r.chars.map kind) =
+      some (if r.sp.isZero then "NULL" else "NUMBER", r.chars.length) := by
+  rw [kinds_real, real_classify]
+  have : r.sp.ks.length = r.chars.length := by rw [← kinds_real]; simp
+  rw [this]
+
+open MontePyVerif.LexNum LexBridge in
+/-- **C12_lexnum_counted** — `<n>r`, `<n>i`, `<n>j`, `<n>ilog` with any non-empty digit run n are one token of
+    the type of that shortcut -/
+theorem C12_lexnum_counted (z : Bool) (ns : List Bool) (c : Counted) (nuc : Bool) :
+    classify nuc (digs (z :: ns) ++ c.ks) = some (c.type, (digs (z :: ns) ++ c.ks).length) :=
+  counted_classify z ns c nuc
+
+open MontePyVerif.LexNum LexBridge in
+/-- **C12_lexnum_multiply** — `<x>m` with x any spelling of `Real` is one NUM_MULTIPLY token; the one exception
+    is by design: `dddd.ddm` (4-6 digits, two decimals, no sign or exponent) on an input that lists nuclides is a
+    ZAID -/
+theorem C12_lexnum_multiply (r : RealC) (nuc : Bool) :
+    classify nuc ((r.chars ++ ['m']).map kind) =
+      some (if zaidShaped r.sp && nuc then "ZAID" else "NUM_MULTIPLY", (r.chars ++ ['m']).length) := by
+  have hk : (r.chars ++ ['m']).map kind = r.sp.ks ++ [K.m] := by
+    rw [List.map_append, kinds_real]; rfl
+  rw [hk, mult_classify]
+  have : (r.sp.ks ++ [K.m]).length = (r.chars ++ ['m']).length := by rw [← hk]; simp
+  rw [this]
+
+/-- the shortcut words without a count are classified by `MCNP_Lexer.TEXT` (already modelled in
+    Model/Dispatch.lean), in any letter case -/
+theorem C12_lexnum_countless :
+    (∀ w kw, lower w = "r" → mcnpLexerText kw w = "REPEAT") ∧ (∀ w kw, lower w = "i" → mcnpLexerText kw w = "INTERPOLATE") ∧
+    (∀ w kw, lower w = "j" → mcnpLexerText kw w = "JUMP") ∧
+    (∀ w kw, lower w = "ilog" → mcnpLexerText kw w = "LOG_INTERPOLATE") := by
+  refine ⟨?_, ?_, ?_, ?_⟩ <;> intro w kw h <;> simp [mcnpLexerText, parseShortcutWord, h]
+
+/-- non-vacuity and the two repaired defects of main as instances: `58695.87E0` is a NUMBER (335c6eb),
+    `4145.81m` a multiply shortcut off the nuclide inputs and a ZAID on them (0a90ce7) -/
+example : LexNum.classifyString false "58695.87E0" = some ("NUMBER", 10) ∧
+    LexNum.classifyString false "4145.81m" = some ("NUM_MULTIPLY", 8) ∧
+    LexNum.classifyString true "4145.81m" = some ("ZAID", 8) ∧
+    LexNum.classifyString true "1001.80c" = some ("ZAID", 8) ∧
+    LexNum.classifyString false "-0.0e+00" = some ("NULL", 8) ∧
+    LexNum.classifyString false "03e" = some ("NUMBER_WORD", 3) := by decide
 
 end MontePyVerif.C12
